@@ -20,12 +20,16 @@ import (
 
 // c06Op is one scripted operation; streams are named by the order in which they were opened.
 type c06Op struct {
-	kind  string // o f c r x ps pa pw pr pg ph pd
-	s     int    // stream index (0-based), -1 = connection / literal id in a
-	a, b  int
-	flag  bool
-	vals  []xhttp2.Setting
-	rogue bool // the peer deliberately leaves the protocol here
+	kind   string // o f c r x ps pa pw pr pg ph pd pp pu
+	s      int    // stream index (0-based), -1 = connection / literal id in a
+	a, b   int
+	flag   bool
+	vals   []xhttp2.Setting
+	rogue  bool // the peer deliberately leaves the protocol here
+	head   bool // o: HEAD request
+	trlp1  int  // o: 0 = no trailers, else 1 + the length of the trailer value
+	status int  // ph: 0 = 200 for the first block / a trailer block afterwards, -1 = no :status, else literal
+	clp1   int  // ph: 0 = no content-length, else 1 + its value
 }
 
 type c06Run struct {
@@ -39,17 +43,27 @@ type c06Run struct {
 	idleClose  bool
 	creditOwed int64 // connection-level credit not returned at the end (0 when the connection was closed)
 	human      string
+
+	noForcedWake bool
+	lostWakeups  []string // operations after which a RoundTrip that could go ahead was left asleep
+	exactHits    int      // header / trailer blocks of exactly the targeted length (adaptive scripts)
 }
 
 // c06Exec runs a script on a fresh connection. gen, when non-nil, produces the next operation
 // from what has been observed so far (nil = stop).
 func c06Exec(t testing.TB, cfg c06Cfg, script []c06Op, gen func(e *c06Env, n int) *c06Op) (*c06Run, error) {
+	return c06ExecMode(t, cfg, script, gen, false)
+}
+
+// c06ExecMode: noForcedWake = the wake-up lane (nobody broadcasts on cc.cond for the client).
+func c06ExecMode(t testing.TB, cfg c06Cfg, script []c06Op, gen func(e *c06Env, n int) *c06Op, noForcedWake bool) (*c06Run, error) {
 	e, err := c06NewEnv(t, cfg)
 	if err != nil {
 		return nil, err
 	}
 	defer e.shutdown()
-	run := &c06Run{cfg: cfg, closedAt: -1}
+	e.noForcedWake = noForcedWake
+	run := &c06Run{cfg: cfg, closedAt: -1, noForcedWake: noForcedWake}
 	// the connection preface (no PING yet: the client insists on SETTINGS first)
 	want := 2
 	for _, p := range cfg.prio {
@@ -82,9 +96,23 @@ func c06Exec(t testing.TB, cfg c06Cfg, script []c06Op, gen func(e *c06Env, n int
 		if op.rogue {
 			run.rogue = true
 		}
+		e.curTok = fmt.Sprintf("#%d %s", len(run.tokens), op.kind)
+		if op.kind == "ps" {
+			// a SETTINGS frame that can raise the stream limit without touching INITIAL_WINDOW_SIZE:
+			// MAX_CONCURRENT_STREAMS without INITIAL_WINDOW_SIZE, or the first SETTINGS frame without
+			// MAX_CONCURRENT_STREAMS (the default of 1000 replaces the initial 100)
+			mcs, iws := false, false
+			for _, v := range op.vals {
+				mcs = mcs || v.ID == xhttp2.SettingMaxConcurrentStreams
+				iws = iws || v.ID == xhttp2.SettingInitialWindowSize
+			}
+			if !iws && (mcs || !e.settingsSent) {
+				e.curTok += " limit-only"
+			}
+		}
 		switch op.kind {
 		case "o":
-			tok = e.open(op.a, op.flag, op.b)
+			tok = e.open(op.a, op.flag, op.b, c06Shape{head: op.head, trailer: op.trlp1 - 1})
 			e.opened[len(e.opened)-1].tokIdx = len(run.tokens)
 		case "f":
 			if st := e.streams[id(op)]; st != nil && st.body != nil && !st.dead() && !st.aborted && st.released == st.recvd && st.body.remaining() > 0 {
@@ -95,7 +123,7 @@ func c06Exec(t testing.TB, cfg c06Cfg, script []c06Op, gen func(e *c06Env, n int
 				tok = e.cancelStream(st.id)
 			}
 		case "r":
-			if st := e.streams[id(op)]; st != nil && st.res != nil && !st.noBody && !st.closedB && st.buffered > 0 {
+			if st := e.streams[id(op)]; st != nil && st.res != nil && !st.noBody && !st.closedB && !st.readErr && st.buffered > 0 {
 				tok = e.readBody(st.id, op.a)
 			}
 		case "x":
@@ -113,7 +141,20 @@ func c06Exec(t testing.TB, cfg c06Cfg, script []c06Op, gen func(e *c06Env, n int
 		case "pg":
 			tok = e.peerGoAway(uint32(op.a))
 		case "ph":
-			tok = e.peerHeaders(id(op), op.flag)
+			status := op.status
+			if status == 0 {
+				status = 200
+				if st := e.streams[id(op)]; st != nil && st.gotFinal {
+					status = 0
+				}
+			} else if status < 0 {
+				status = 0
+			}
+			tok = e.peerHeaders(id(op), op.flag, status, op.clp1-1)
+		case "pp":
+			tok = e.peerPing(op.flag)
+		case "pu":
+			tok = e.peerPushPromise(id(op), uint32(op.b))
 		case "pd":
 			tok = e.peerData(id(op), op.a, op.b, op.flag)
 		}
@@ -147,6 +188,8 @@ func c06Exec(t testing.TB, cfg c06Cfg, script []c06Op, gen func(e *c06Env, n int
 		run.tokens[st.tokIdx] = st.openToken()
 	}
 	run.history = append([]string{}, e.hist...)
+	run.lostWakeups = append([]string{}, e.lostWakeups...)
+	run.exactHits = e.exactHits
 	run.timeouts = e.timeouts
 	if !e.closed {
 		run.creditOwed = e.creditOwed()
@@ -170,8 +213,26 @@ func (r *c06Run) monitorLine() string {
 	return "c06monitor 0 " + h
 }
 
-// the classes of the known defects of the unchanged tree, in the order of Fixes
-var c06Classes = []string{"c06-caller-max-frame-size", "c06-stream-receive-window", "c06-even-stream-id", "c06-headers-priority-frame-size"}
+// the classes of the known defects, in the order of the fields of Fixes (the first four are
+// repaired in /repo since round 2; 5-9 are the round-4 findings, fixes/C06-5..9)
+var c06Classes = []string{"c06-caller-max-frame-size", "c06-stream-receive-window", "c06-even-stream-id", "c06-headers-priority-frame-size",
+	"c06-overlong-response-credit", "c06-discarded-data-credit", "c06-trailers-frame-size", "c06-trailers-without-body", "c06-max-concurrent-wake"}
+
+const c06AllFixes = "111111111"
+
+// c06FixVariants: the repair vectors tried to classify a run that differs from the repaired
+// model - every non-empty subset of the first four repairs switched off, and every non-empty
+// subset of the last five.
+func c06FixVariants() []string {
+	var out []string
+	for v := 14; v >= 0; v-- {
+		out = append(out, fmt.Sprintf("%04b", v)+"11111")
+	}
+	for v := 30; v >= 0; v-- {
+		out = append(out, "1111"+fmt.Sprintf("%05b", v))
+	}
+	return out
+}
 
 // c06Judge compares a batch of runs with the model and records them. A run that differs from
 // the repaired model but equals the model with one or more repairs switched off is the known
@@ -179,7 +240,7 @@ var c06Classes = []string{"c06-caller-max-frame-size", "c06-stream-receive-windo
 func c06Judge(s *verifh.Session, runs []*c06Run) {
 	var lines []string
 	for _, r := range runs {
-		lines = append(lines, r.line("1111"), r.monitorLine())
+		lines = append(lines, r.line(c06AllFixes), r.monitorLine())
 	}
 	ans, err := verifh.RunModel(lines)
 	if err != nil {
@@ -195,11 +256,22 @@ func c06Judge(s *verifh.Session, runs []*c06Run) {
 	var lines2 []string
 	var pends []pend
 	for i, r := range runs {
+		if ans[2*i] != strings.Join(r.transcript, ";") {
+			// a connection error (not an idle close) in the last operation: the read loop writes
+			// GOAWAY unflushed, aborts every open stream and closes the socket; each aborted stream's
+			// goroutine then races to write its RST_STREAM (whose flush carries the GOAWAY out) against
+			// that close. Which of them reach the peer is the scheduler's choice and all of it is
+			// legal: GOAWAY and RST_STREAMs the model does not have are dropped from that operation
+			// (before anything is compared or classified).
+			if canon, ok := c06DropTeardownFrames(r.transcript, strings.Split(ans[2*i], ";")); ok {
+				s.Count("teardown-frames")
+				r.transcript = strings.Split(canon, ";")
+			}
+		}
 		if ans[2*i] == strings.Join(r.transcript, ";") {
 			continue
 		}
-		for v := 14; v >= 0; v-- { // fewest repairs switched off first is not needed: any match classifies
-			fix := fmt.Sprintf("%04b", v)
+		for _, fix := range c06FixVariants() { // any match classifies; the one with the most repairs on wins
 			pends = append(pends, pend{i, fix, len(lines2)})
 			lines2 = append(lines2, r.line(fix))
 		}
@@ -222,7 +294,7 @@ func c06Judge(s *verifh.Session, runs []*c06Run) {
 	}
 	for i, r := range runs {
 		impl := strings.Join(r.transcript, ";")
-		if impl != ans[2*i] && c06TruncatedAtClose(r.transcript, strings.Split(ans[2*i], ";")) {
+		if impl != ans[2*i] && c06TruncatedAtClose(strings.Split(impl, ";"), strings.Split(ans[2*i], ";")) {
 			// safety net (expected count 0 since the lane waits for the frames of a normally
 			// finished stream before its barrier PING): the client closed the connection (idle
 			// close after GOAWAY / doNotReuse) in the last operation and the peer lost the tail of
@@ -230,6 +302,10 @@ func c06Judge(s *verifh.Session, runs []*c06Run) {
 			// what arrived is, per stream, a prefix of what the model emits, everything before is
 			// equal. Nothing C06 determines differs.
 			s.Count("close-truncated")
+			r.human += " [close-truncated: " + impl + "]"
+			if os.Getenv("VERIF_C06_DEBUG") != "" { // development aid
+				fmt.Fprintf(os.Stderr, "close-truncated: %s\n impl  %s\n model %s\n", strings.Join(r.tokens, ";"), impl, ans[2*i])
+			}
 			impl = ans[2*i]
 		}
 		monitor := ans[2*i+1]
@@ -240,26 +316,103 @@ func c06Judge(s *verifh.Session, runs []*c06Run) {
 		if !creditOK {
 			s.Count("credit-owed")
 		}
-		propOK := monitor == "ok" && !unexpectedClose && r.timeouts == 0 && creditOK
+		propOK := monitor == "ok" && !unexpectedClose && r.timeouts == 0 && creditOK && len(r.lostWakeups) == 0
 		class := ""
 		if fix, ok := legacy[i]; ok {
-			for k := 0; k < 4; k++ {
+			for k := 0; k < len(c06Classes); k++ {
 				if fix[k] == '0' {
 					class = c06Classes[k]
 					break
 				}
 			}
 			s.Count("known-defect:" + class)
+		} else if len(r.lostWakeups) > 0 && impl == ans[2*i] && c06AllLimitOnly(r.lostWakeups) {
+			// the wake-up lane: frames as the repaired model has them (the lane woke the waiter
+			// itself), but a RoundTrip that could go ahead had been left asleep - by a SETTINGS frame
+			// that raised the stream limit and nothing else (any other lost wake-up is not this finding)
+			class = c06Classes[8]
+			s.Count("known-defect:" + class)
+		}
+		if class == "" && impl != ans[2*i] {
+			// diagnostics for an unclassified disagreement: how close each repair vector came
+			best, bestAt := "", -1
+			for _, p := range pends {
+				if p.run != i {
+					continue
+				}
+				a, b := strings.Split(ans2[p.line], ";"), r.transcript
+				at := 0
+				for at < len(a) && at < len(b) && a[at] == b[at] {
+					at++
+				}
+				if at > bestAt {
+					best, bestAt = p.fix, at
+				}
+			}
+			r.human += fmt.Sprintf(" [closest repair vector %s agrees on the first %d of %d operations]", best, bestAt, len(r.transcript))
+		}
+		if r.noForcedWake {
+			s.Count("no-forced-wake")
+		}
+		if len(r.lostWakeups) > 0 {
+			s.Count("lost-wakeup")
 		}
 		if monitor != "ok" {
 			s.Count("monitor:" + monitor)
 		}
-		human := fmt.Sprintf("cfg=%s script=%s -> %s [monitor=%s close=%v timeouts=%d owed=%d]%s", r.cfg.name, strings.Join(r.tokens, ";"), impl, monitor, r.closedAt, r.timeouts, r.creditOwed, r.human)
+		human := fmt.Sprintf("cfg=%s script=%s -> %s [monitor=%s close=%v timeouts=%d owed=%d lostWakeups=%v]%s", r.cfg.name, strings.Join(r.tokens, ";"), impl, monitor, r.closedAt, r.timeouts, r.creditOwed, r.lostWakeups, r.human)
 		if len(human) > 1500 {
 			human = human[:1500] + "…"
 		}
-		s.Case(r.line("1111"), impl, propOK, class, len(r.tokens) >= 4, human)
+		s.Case(r.line(c06AllFixes), impl, propOK, class, len(r.tokens) >= 4, human)
 	}
+}
+
+func c06AllLimitOnly(toks []string) bool {
+	for _, t := range toks {
+		if !strings.HasSuffix(t, " limit-only") {
+			return false
+		}
+	}
+	return true
+}
+
+// c06DropTeardownFrames: both transcripts end with a connection close in their last operation;
+// "G" and every "R<id>" that the model's last operation does not have are removed from the
+// implementation's. Reports whether anything was removed.
+func c06DropTeardownFrames(impl, model []string) (string, bool) {
+	n := len(impl)
+	if n == 0 || n != len(model) {
+		return "", false
+	}
+	has := func(op, tok string) bool {
+		for _, f := range strings.Split(op, ",") {
+			if f == tok {
+				return true
+			}
+		}
+		return false
+	}
+	if !has(impl[n-1], "X") || !has(model[n-1], "X") {
+		return "", false
+	}
+	var keep []string
+	removed := false
+	for _, f := range strings.Split(impl[n-1], ",") {
+		if (f == "G" || (strings.HasPrefix(f, "R") && len(f) > 1)) && !has(model[n-1], f) {
+			removed = true
+			continue
+		}
+		keep = append(keep, f)
+	}
+	if !removed {
+		return "", false
+	}
+	if len(keep) > 0 && keep[0] == "X" {
+		keep = append([]string{"-"}, keep...) // the rendering of an operation without frames
+	}
+	out := append(append([]string{}, impl[:n-1]...), strings.Join(keep, ","))
+	return strings.Join(out, ";"), true
 }
 
 // c06TruncatedAtClose: both transcripts are equal up to the last operation, both end in a
@@ -312,11 +465,15 @@ func c06TruncatedAtClose(impl, model []string) bool {
 func c06Set(id xhttp2.SettingID, v uint32) xhttp2.Setting { return xhttp2.Setting{ID: id, Val: v} }
 
 // c06Directed: fixed scripts around the boundaries the property names; they always run.
-func c06Directed() []struct {
+type c06Script struct {
 	cfg    c06Cfg
 	script []c06Op
 	name   string
-} {
+	nowake bool                            // run in the wake-up lane (no forced broadcast)
+	gen    func(e *c06Env, n int) *c06Op // adaptive continuation of the script
+}
+
+func c06Directed() []c06Script {
 	pre := c06Presets()
 	def, chrome, firefox, safari := pre[0], pre[1], pre[2], pre[3]
 	S := func(vals ...xhttp2.Setting) c06Op { return c06Op{kind: "ps", vals: vals} }
@@ -332,18 +489,22 @@ func c06Directed() []struct {
 	ph := func(s int, end bool) c06Op { return c06Op{kind: "ph", s: s, flag: end} }
 	pd := func(s, n, pad int, end bool) c06Op { return c06Op{kind: "pd", s: s, a: n, b: pad, flag: end} }
 	rd := func(s, n int) c06Op { return c06Op{kind: "r", s: s, a: n} }
-	var out []struct {
-		cfg    c06Cfg
-		script []c06Op
-		name   string
-	}
+	var out []c06Script
 	add := func(name string, cfg c06Cfg, ops ...c06Op) {
-		out = append(out, struct {
-			cfg    c06Cfg
-			script []c06Op
-			name   string
-		}{cfg, ops, name})
+		out = append(out, c06Script{cfg: cfg, script: ops, name: name})
 	}
+	addNoWake := func(name string, cfg c06Cfg, ops ...c06Op) {
+		out = append(out, c06Script{cfg: cfg, script: ops, name: name, nowake: true})
+	}
+	// request shapes and response kinds of round 4
+	openHead := func() c06Op { return c06Op{kind: "o", flag: true, head: true} }
+	openTrl := func(body int, known bool, trl int) c06Op { return c06Op{kind: "o", a: body, flag: known, trlp1: trl + 1} }
+	resp := func(s int, end bool, status, cl int) c06Op {
+		return c06Op{kind: "ph", s: s, flag: end, status: status, clp1: cl + 1}
+	}
+	ping := c06Op{kind: "pp"}
+	closeB := func(s int) c06Op { return c06Op{kind: "x", s: s} }
+	cancel := func(s int) c06Op { return c06Op{kind: "c", s: s} }
 	rep := func(n int, ops ...c06Op) []c06Op {
 		var l []c06Op
 		for i := 0; i < n; i++ {
@@ -399,6 +560,11 @@ func c06Directed() []struct {
 	add("credit", def, S(), open(0, true, 0), ph(0, false), pd(0, 4095, 0, false), rd(0, 4095), pd(0, 1, 0, false), rd(0, 1), pd(0, 8192, 10, false), rd(0, 100), rd(0, 100000),
 		pd(0, 16384, 256, false), pd(0, 16384, 1, false), c06Op{kind: "x", s: 0}, pd(0, 1000, 0, false), pd(0, 5000, 0, true),
 		open(0, true, 0), ph(1, false), pd(1, 3000, 0, false), c06Op{kind: "c", s: 1}, rd(1, 100), pd(1, 2000, 0, false), rd(1, 5000))
+	// 9b. several bodies read in small pieces, interleaved: the connection-level and the stream-level
+	//     refresh thresholds are crossed at different Reads
+	add("credit-interleaved", def, cat([]c06Op{S(), open(0, true, 0), open(0, true, 0), open(0, true, 0), ph(0, false), ph(1, false), ph(2, false),
+		pd(0, 16384, 0, false), pd(0, 16384, 0, false), pd(1, 16384, 0, false), pd(1, 16384, 0, false), pd(2, 16384, 0, false)},
+		rep(8, rd(0, 2048), rd(1, 2048)), rep(4, rd(0, 1000), rd(1, 3000), rd(2, 100), rd(0, 3000)), rep(3, rd(2, 4095), rd(1, 1), rd(0, 4095)))...)
 	// 10. RST_STREAM and GOAWAY in mid-upload
 	add("rst-goaway", def, S(), open(100000, true, 0), open(100000, true, 0), open(100000, false, 0), feed(0), c06Op{kind: "pr", s: 0, b: 8}, feed(1), c06Op{kind: "pg", s: -1, a: 3},
 		wu(-1, 1<<20), wu(1, 1<<20), feed(1), feed(1), feed(1), feed(1), feed(1), feed(1), ph(1, true))
@@ -406,7 +572,156 @@ func c06Directed() []struct {
 	rogueWU := wu(-1, math.MaxInt32)
 	rogueWU.rogue = true
 	add("window-update-overflow", def, S(), open(10, true, 0), wu(0, math.MaxInt32-65535), open(10, true, 0), wu(1, math.MaxInt32-65534), feed(0), wu(-1, math.MaxInt32-65535), rogueWU)
+
+	// 11b. the peer's own violations in a SETTINGS frame: MAX_FRAME_SIZE outside [2^14, 2^24),
+	//      INITIAL_WINDOW_SIZE above 2^31-1 - a connection error, nothing applied is used any more
+	for i, bad := range []xhttp2.Setting{c06Set(xhttp2.SettingMaxFrameSize, 16383), c06Set(xhttp2.SettingMaxFrameSize, 1<<24),
+		c06Set(xhttp2.SettingMaxFrameSize, 0), c06Set(xhttp2.SettingInitialWindowSize, 1<<31)} {
+		rogueS := c06Op{kind: "ps", vals: []xhttp2.Setting{c06Set(xhttp2.SettingMaxConcurrentStreams, 7), bad}, rogue: true}
+		add(fmt.Sprintf("bad-settings-%d", i), def, S(), open(50000, true, 0), feed(0), rogueS)
+	}
+	add("bad-settings-first", def, c06Op{kind: "ps", vals: []xhttp2.Setting{c06Set(xhttp2.SettingMaxFrameSize, 100)}, rogue: true})
+
+	// ---- round 4
+	// 12. PING: acknowledged with the same octets, also between the frames of an upload; an
+	//     acknowledgement nobody asked for is ignored
+	add("ping", def, S(), ping, open(40000, true, 0), ping, feed(0), ping, c06Op{kind: "pp", flag: true}, feed(0), ping, ph(0, true), ping)
+	add("ping-chrome", chrome, S(), ping, open(0, true, 0), ping)
+	// 13. PUSH_PROMISE: refused with a connection error
+	push := c06Op{kind: "pu", s: 0, b: 2, rogue: true}
+	add("push-promise", def, S(), c06Op{kind: "pa"}, open(100, true, 0), push)
+	add("push-promise-firefox", firefox, S(), c06Op{kind: "pa"}, open(0, true, 0), c06Op{kind: "pu", s: 0, b: 4, rogue: true})
+	// 14. informational responses: skipped (also 100-continue in mid-upload); the sixth one and one
+	//     with END_STREAM are stream errors; a block without :status is a stream error
+	add("informational", def, S(), open(40000, true, 0), resp(0, false, 100, -1), feed(0), resp(0, false, 103, -1), feed(0), feed(0), resp(0, false, 200, -1), pd(0, 100, 0, true), rd(0, 1000),
+		open(0, true, 0), resp(1, false, 103, -1), resp(1, false, 103, -1), resp(1, false, 103, -1), resp(1, false, 103, -1), resp(1, false, 103, -1), resp(1, false, 103, -1),
+		open(0, true, 0), resp(2, true, 100, -1), open(0, true, 0), resp(3, false, -1, -1), open(0, true, 0), resp(4, false, 102, -1), pd(4, 5000, 0, false), ping)
+	// 15. HEAD: the response never has a body; DATA with octets on it is a stream error whose frame
+	//     still counts against the connection window
+	add("head", def, S(), openHead(), resp(0, false, 200, 1234), pd(0, 0, 0, true), openHead(), resp(1, true, 200, -1), openHead(), resp(2, false, 200, -1), pd(2, 5000, 0, false),
+		openHead(), resp(3, false, 200, -1), pd(3, 0, 7, false), pd(3, 5000, 0, true), openHead(), resp(4, false, 200, -1), pd(4, 4999, 1, false), ping)
+	// 16. Content-Length: a response longer than declared - the Read that notices it aborts the
+	//     stream; the octets it took out of the pipe are still owed to the peer (three times over)
+	add("content-length-overlong", def, S(), open(0, true, 0), resp(0, false, 200, 10), pd(0, 5000, 0, false), rd(0, 8192), rd(0, 100), closeB(0),
+		open(0, true, 0), resp(1, false, 200, 10), pd(1, 5000, 0, false), pd(1, 3000, 0, false), rd(1, 5), rd(1, 6000), closeB(1),
+		open(0, true, 0), resp(2, false, 200, 4096), pd(2, 8000, 0, true), rd(2, 4096), rd(2, 1), closeB(2),
+		open(0, true, 0), resp(3, false, 200, 5000), pd(3, 5000, 0, true), rd(3, 100000), ping)
+	small := c06Cfg{name: "conn-flow-64k", connFlow: 65536}
+	add("content-length-overlong-small-window", small, cat([]c06Op{S()}, rep(8, open(0, true, 0), resp(0, false, 200, 1), pd(0, 16000, 0, false), rd(0, 16000)))...)
+	// 17. DATA that is dropped with a stream error: after END_STREAM (upload still going), before the
+	//     response HEADERS, after a 1xx only
+	add("discarded-data", def, S(), open(100000, true, 0), feed(0), ph(0, true), pd(0, 5000, 0, false), open(0, true, 0), pd(1, 5000, 0, false),
+		open(0, true, 0), resp(2, false, 100, -1), pd(2, 3000, 100, true), open(200000, true, 0), ph(3, true), pd(3, 100, 0, false), ping)
+	add("discarded-data-small-window", small, cat([]c06Op{S()}, rep(9, open(0, true, 0), pd(0, 16000, 0, false)))...)
+	// 18. request trailers: after the last DATA frame (which then has no END_STREAM), split by the
+	//     frame size in force when they are written; a declared trailer without a value ends the
+	//     stream with an empty DATA frame; known and unknown body length
+	add("trailers", def, S(c06Set(xhttp2.SettingInitialWindowSize, 1<<20), c06Set(xhttp2.SettingMaxFrameSize, 1<<20)), openTrl(1000, false, 20000), feed(0),
+		openTrl(70000, true, 10), feed(1), wu(-1, 1<<20), feed(1), openTrl(100, true, 0), feed(2), openTrl(0, false, 40000), ph(0, true), ping)
+	add("trailers-frame-size-lowered", def, S(c06Set(xhttp2.SettingInitialWindowSize, 1<<20), c06Set(xhttp2.SettingMaxFrameSize, 1<<20)), wu(-1, 1<<20),
+		openTrl(100000, true, 20000), feedN(0, 1000), S(c06Set(xhttp2.SettingMaxFrameSize, 16384)), feed(0), feed(0), feed(0), feed(0), feed(0), feed(0), feed(0),
+		openTrl(5, false, 70000), S(c06Set(xhttp2.SettingMaxFrameSize, 32768)), feed(1), ping)
+	add("trailers-chrome", chrome, S(c06Set(xhttp2.SettingMaxFrameSize, 65536)), openTrl(10, true, 30000), S(c06Set(xhttp2.SettingMaxFrameSize, 16384)), feed(0), openTrl(10, false, 16370), feed(1), ping)
+	// 19. declared trailers on a request without a body: the stream has to end with its HEADERS
+	add("trailers-without-body", def, S(c06Set(xhttp2.SettingMaxConcurrentStreams, 1)), openTrl(0, true, 5), ph(0, true), open(0, true, 0), ph(1, true), ping)
+	// 20. the wake-up lane: nobody broadcasts for the client - every operation that frees a slot
+	//     (or raises the limit) must wake the waiting RoundTrip itself
+	addNoWake("wake-mcs-raised", strict, S(c06Set(xhttp2.SettingMaxConcurrentStreams, 0)), open(0, true, 0), S(c06Set(xhttp2.SettingMaxConcurrentStreams, 5)), ph(0, true),
+		S(c06Set(xhttp2.SettingMaxConcurrentStreams, 1)), open(0, true, 0), open(10, true, 0), S(c06Set(xhttp2.SettingMaxConcurrentStreams, 2)), feed(2), ping)
+	addNoWake("wake-mcs-raised-with-window", strict, S(c06Set(xhttp2.SettingMaxConcurrentStreams, 1)), open(0, true, 0), open(0, true, 0),
+		S(c06Set(xhttp2.SettingMaxConcurrentStreams, 3), c06Set(xhttp2.SettingInitialWindowSize, 70000)), ping)
+	addNoWake("wake-slot-freed", strict, S(c06Set(xhttp2.SettingMaxConcurrentStreams, 1)), open(0, true, 0), open(0, true, 0), ph(0, true), open(0, true, 0), c06Op{kind: "pr", s: 1, b: 8},
+		open(100, true, 0), cancel(2), ph(3, false), pd(3, 10, 0, false), open(0, true, 0), feed(3), pd(3, 10, 0, true), open(0, true, 0), wu(4, 0), ping)
+	// (before the peer's first SETTINGS frame the limit is 100; a first frame without
+	// MAX_CONCURRENT_STREAMS raises it to the default of 1000: that must wake the 101st request)
+	addNoWake("wake-first-settings-default", strict, cat(rep(100, open(0, true, 0)), []c06Op{open(0, true, 0), S(), ph(0, true), ping})...)
+	addNoWake("wake-goaway", strict, S(c06Set(xhttp2.SettingMaxConcurrentStreams, 1)), open(0, true, 0), open(0, true, 0), c06Op{kind: "pg", s: -1, a: 1}, ph(0, true))
+	// 21. header blocks and trailer blocks of exactly k frames (END_HEADERS on a full frame)
+	for _, c := range []c06Cfg{def, chrome} {
+		out = append(out, c06Script{cfg: c, name: "exact-header-blocks-" + c.name, gen: c06ExactBlocks(c)})
+	}
 	return out
+}
+
+// c06ExactBlocks: an adaptive script. It opens requests whose HPACK-encoded header block (and,
+// in the second half, trailer block) is exactly limit-1, limit, limit+1, 2*limit ... octets long,
+// where limit is what fits into the first frame under the peer's MAX_FRAME_SIZE (5 octets less
+// when a HEADERS priority is attached): the padding is corrected from the length measured on
+// the wire until the target is hit (the dynamic table settles after the first request).
+func c06ExactBlocks(cfg c06Cfg) func(e *c06Env, n int) *c06Op {
+	type goal struct {
+		mf      uint32 // MAX_FRAME_SIZE to advertise first (0 = leave)
+		target  int
+		trailer bool
+	}
+	prio := 0
+	if !cfg.hdrPrio.IsZero() {
+		prio = 5
+	}
+	var goals []goal
+	for _, mf := range []uint32{16384, 20000} {
+		first := int(mf) - prio
+		set := mf
+		for _, t := range []int{first - 1, first, first + 1, first + int(mf), first + int(mf) + 1, first + 2*int(mf)} {
+			goals = append(goals, goal{mf: set, target: t})
+			set = 0
+		}
+		for _, t := range []int{first, first + int(mf)} {
+			goals = append(goals, goal{target: t, trailer: true})
+		}
+	}
+	gi, tries, guess := 0, 0, 0
+	state := 0 // 0: settings, 1: open, 2: feed (trailers), 3: respond
+	var last *c06Stream
+	return func(e *c06Env, n int) *c06Op {
+		if n == 0 {
+			return &c06Op{kind: "ps"}
+		}
+		for gi < len(goals) {
+			g := goals[gi]
+			switch state {
+			case 0:
+				state = 1
+				tries, guess = 0, g.target-80
+				if g.mf != 0 {
+					return &c06Op{kind: "ps", vals: []xhttp2.Setting{c06Set(xhttp2.SettingMaxFrameSize, g.mf), c06Set(xhttp2.SettingInitialWindowSize, 1<<20)}}
+				}
+			case 1:
+				if last != nil { // correct the guess by what was measured
+					got := last.hdrLen
+					if g.trailer {
+						got = last.trlLen
+					}
+					if got == g.target {
+						e.exactHits++
+						gi, state, last = gi+1, 0, nil
+						continue
+					}
+					guess += g.target - got
+					if tries >= 5 || guess < 1 {
+						gi, state, last = gi+1, 0, nil // give up on this one (never seen)
+						continue
+					}
+				}
+				tries++
+				if g.trailer {
+					state = 2
+					return &c06Op{kind: "o", a: 10, flag: true, trlp1: guess + 1}
+				}
+				state = 3
+				return &c06Op{kind: "o", flag: true, b: guess}
+			case 2:
+				last = e.opened[len(e.opened)-1]
+				state = 3
+				return &c06Op{kind: "f", s: len(e.order) - 1}
+			case 3:
+				last = e.opened[len(e.opened)-1]
+				state = 1
+				return &c06Op{kind: "ph", s: len(e.order) - 1, flag: true}
+			}
+		}
+		return nil
+	}
 }
 
 // c06RandomCfg draws a caller fingerprint.
@@ -483,18 +798,26 @@ func c06Gen(r *rand.Rand, maxOps int) func(e *c06Env, n int) *c06Op {
 			return nil
 		}
 		// which streams can do what
-		var feedable, respondable, dataable, readable, closable, live, cancellable, resettable []int
+		var feedable, respondable, dataable, readable, closable, live, cancellable, resettable, discardable, endable []int
 		busy := false
 		for i, id := range e.order {
 			st := e.streams[id]
 			alive := !st.dead() && !st.aborted
 			if alive {
 				live = append(live, i)
-				if st.phSent == 0 || st.endSeen {
+				if !st.gotFinal || st.endSeen {
 					cancellable = append(cancellable, i)
 				}
 				if !(st.peerEnd && !st.endSeen) {
 					resettable = append(resettable, i)
+				}
+				// DATA the client has to drop with a stream error: after the peer's END_STREAM while
+				// the upload is still going, before the final response HEADERS, on a HEAD response
+				if (st.peerEnd && !st.endSeen) || !st.gotFinal || (st.head && !st.peerEnd) {
+					discardable = append(discardable, i)
+				}
+				if st.gotFinal && !st.peerEnd {
+					endable = append(endable, i) // a trailer block / an empty DATA frame can end it
 				}
 			}
 			if alive && st.body != nil && st.released > st.recvd {
@@ -503,13 +826,13 @@ func c06Gen(r *rand.Rand, maxOps int) func(e *c06Env, n int) *c06Op {
 			if alive && st.body != nil && st.released == st.recvd && st.body.remaining() > 0 && !st.rstSeen {
 				feedable = append(feedable, i)
 			}
-			if alive && st.phSent == 0 {
+			if alive && !st.gotFinal {
 				respondable = append(respondable, i)
 			}
-			if st.phSent > 0 && !st.peerEnd && !st.noBody && st.cs != nil {
+			if st.gotFinal && !st.peerEnd && !st.noBody && st.cs != nil {
 				dataable = append(dataable, i) // also after the caller cancelled or closed: data in flight
 			}
-			if st.res != nil && !st.noBody && !st.closedB && st.buffered > 0 {
+			if st.res != nil && !st.noBody && !st.closedB && !st.readErr && st.buffered > 0 {
 				readable = append(readable, i)
 			}
 			if st.res != nil && !st.closedB {
@@ -526,8 +849,15 @@ func c06Gen(r *rand.Rand, maxOps int) func(e *c06Env, n int) *c06Op {
 				if r.Intn(6) == 0 {
 					pad = verifh.Pick(r, []int{16300, 16384, 16500, 33000, 70000})
 				}
-				return &c06Op{kind: "o", a: verifh.Pick(r, c06Sizes), flag: r.Intn(4) != 0, b: pad}
-			case k < 40: // feed
+				op := &c06Op{kind: "o", a: verifh.Pick(r, c06Sizes), flag: r.Intn(4) != 0, b: pad}
+				switch r.Intn(10) {
+				case 0:
+					op.a, op.flag, op.head = 0, true, true // HEAD
+				case 1, 2:
+					op.trlp1 = 1 + verifh.Pick(r, []int{0, 5, 100, 16300, 16384, 20000, 40000}) // declared trailers (also without a body)
+				}
+				return op
+			case k < 38: // feed
 				if len(feedable) == 0 || busy {
 					continue
 				}
@@ -536,7 +866,7 @@ func c06Gen(r *rand.Rand, maxOps int) func(e *c06Env, n int) *c06Op {
 					nn = verifh.Pick(r, []int{1, 100, 8192, 16383, 16384})
 				}
 				return &c06Op{kind: "f", s: verifh.Pick(r, feedable), a: nn}
-			case k < 50:
+			case k < 46:
 				inc := verifh.Pick(r, []int{1, 2, 100, 16383, 16384, 16385, 65535, 100000, 1 << 20, 1 << 24})
 				if r.Intn(3) == 0 || len(live) == 0 {
 					if e.connWin+int64(inc) > math.MaxInt32 {
@@ -549,7 +879,7 @@ func c06Gen(r *rand.Rand, maxOps int) func(e *c06Env, n int) *c06Op {
 					inc = math.MaxInt32 // stream-level overflow: the client must reset the stream
 				}
 				return &c06Op{kind: "pw", s: s, b: inc}
-			case k < 58:
+			case k < 53:
 				var vals []xhttp2.Setting
 				if r.Intn(3) != 0 {
 					w := verifh.Pick(r, []uint32{0, 1, 100, 16383, 16384, 65535, 65536, 1 << 20, 1 << 24, math.MaxInt32})
@@ -573,17 +903,34 @@ func c06Gen(r *rand.Rand, maxOps int) func(e *c06Env, n int) *c06Op {
 					vals = append(vals, c06Set(xhttp2.SettingHeaderTableSize, 4096), c06Set(xhttp2.SettingID(0x99), 7))
 				}
 				return &c06Op{kind: "ps", vals: vals}
-			case k < 60:
+			case k < 55:
 				if e.acksSent > 0 {
 					continue
 				}
 				return &c06Op{kind: "pa"}
-			case k < 68:
+			case k < 62:
 				if len(respondable) == 0 {
 					continue
 				}
-				return &c06Op{kind: "ph", s: verifh.Pick(r, respondable), flag: r.Intn(3) == 0}
-			case k < 82:
+				op := &c06Op{kind: "ph", s: verifh.Pick(r, respondable), flag: r.Intn(3) == 0, status: 200}
+				switch r.Intn(12) {
+				case 0, 1:
+					op.status, op.flag = verifh.Pick(r, []int{100, 103, 199}), r.Intn(10) == 0 // informational (rarely with END_STREAM: a stream error)
+				case 2:
+					op.status = verifh.Pick(r, []int{204, 304, 404, 99}) // still a final response: nothing in C06 depends on the code
+					if op.status >= 300 {
+						op.status = 200 // (a status above 299 stops the upload: C17's subject, not modelled here)
+					}
+				case 3:
+					if r.Intn(4) == 0 {
+						op.status = -1 // no :status: a stream error
+					}
+				}
+				if op.status >= 200 && r.Intn(3) == 0 {
+					op.clp1 = 1 + verifh.Pick(r, []int{0, 1, 10, 4096, 16384, 100000}) // declared Content-Length (often too small for what follows)
+				}
+				return op
+			case k < 74:
 				if len(dataable) == 0 {
 					continue
 				}
@@ -598,11 +945,47 @@ func c06Gen(r *rand.Rand, maxOps int) func(e *c06Env, n int) *c06Op {
 					continue // a conforming peer stays inside the windows the client advertised
 				}
 				return &c06Op{kind: "pd", s: s, a: nn, b: pad, flag: r.Intn(5) == 0}
+			case k < 76:
+				// DATA the client must drop with a stream error - inside the windows it advertised
+				if len(discardable) == 0 {
+					continue
+				}
+				s := verifh.Pick(r, discardable)
+				st := e.streams[e.order[s]]
+				nn := verifh.Pick(r, []int{1, 100, 4095, 4096, 8192, 16384})
+				pad := 0
+				if r.Intn(4) == 0 {
+					pad = verifh.Pick(r, []int{1, 100})
+				}
+				if int64(nn+pad) > st.cwin || int64(nn+pad) > e.cConnWin {
+					continue
+				}
+				return &c06Op{kind: "pd", s: s, a: nn, b: pad, flag: r.Intn(4) == 0}
+			case k < 78:
+				return &c06Op{kind: "pp", flag: r.Intn(8) == 0}
+			case k < 79:
+				// the peer ends a response with a trailer block (rarely an illegal one: with a
+				// pseudo-header or without END_STREAM - a connection error)
+				if len(endable) == 0 {
+					continue
+				}
+				op := &c06Op{kind: "ph", s: verifh.Pick(r, endable), flag: true, status: -1}
+				if n >= maxOps/2 && r.Intn(8) == 0 {
+					op.rogue = true
+					if r.Intn(2) == 0 {
+						op.status = 200
+					} else {
+						op.flag = false
+					}
+				}
+				return op
 			case k < 92:
 				if len(readable) == 0 {
 					continue
 				}
-				return &c06Op{kind: "r", s: verifh.Pick(r, readable), a: verifh.Pick(r, []int{1, 100, 4095, 4096, 5000, 65536, 1 << 20})}
+				// (several bodies read in pieces below the 4096 refresh threshold: the connection's and
+				// the streams' inflows then cross it at different Reads)
+				return &c06Op{kind: "r", s: verifh.Pick(r, readable), a: verifh.Pick(r, []int{1, 100, 1000, 2048, 3000, 4095, 4096, 5000, 65536, 1 << 20})}
 			case k < 94:
 				if len(closable) == 0 {
 					continue
@@ -627,6 +1010,9 @@ func c06Gen(r *rand.Rand, maxOps int) func(e *c06Env, n int) *c06Op {
 				if e.goAwaySent || len(e.order) == 0 || n < maxOps/2 || r.Intn(2) == 0 {
 					continue // GOAWAY ends most of what can still happen: late and rare
 				}
+				if r.Intn(6) == 0 && len(live) > 0 {
+					return &c06Op{kind: "pu", s: verifh.Pick(r, live), b: 2 + 2*r.Intn(5), rogue: true} // PUSH_PROMISE: a connection error
+				}
 				return &c06Op{kind: "pg", s: -1, a: int(e.order[r.Intn(len(e.order))])}
 			}
 		}
@@ -648,9 +1034,17 @@ func TestVerif_C06_script(t *testing.T) {
 		if only != "" && d.name != only {
 			continue
 		}
-		run, err := c06Exec(t, d.cfg, d.script, nil)
+		run, err := c06ExecMode(t, d.cfg, d.script, d.gen, d.nowake)
+		if err == nil && d.gen != nil {
+			for i := 0; i < run.exactHits; i++ {
+				s.Count("exact-block-hit")
+			}
+			if run.exactHits == 0 { // the lane must not pass vacuously
+				s.Observe("coverage:"+d.name, false, "", false, "no header block of exactly k frames was produced", strings.Join(run.tokens, ";"))
+			}
+		}
 		if only != "" {
-			t.Logf("%s\n%s\n%s", run.line("1111"), strings.Join(run.transcript, ";"), strings.Join(run.history, ";"))
+			t.Logf("%s\n%s\n%s", run.line(c06AllFixes), strings.Join(run.transcript, ";"), strings.Join(run.history, ";"))
 		}
 		if err != nil {
 			t.Fatalf("infrastructure: %v", err)
@@ -667,7 +1061,8 @@ func TestVerif_C06_script(t *testing.T) {
 	}
 	for c := 0; c < n && stalls < 6; c++ {
 		cfg := c06RandomCfg(r)
-		run, err := c06Exec(t, cfg, nil, c06Gen(r, 8+r.Intn(52)))
+		nowake := cfg.strict && r.Intn(2) == 0 // the wake-up lane, for half of the strict fingerprints
+		run, err := c06ExecMode(t, cfg, nil, c06Gen(r, 8+r.Intn(52)), nowake)
 		if err != nil {
 			t.Fatalf("infrastructure: %v", err)
 		}
